@@ -35,8 +35,8 @@ CQ = "symplyphysics.core.dimensions.collect_quantity"
 QM = "symplyphysics.core.symbols.quantities"
 
 
-def float_num(x: int) -> T:
-    """Float(x.0): a number whose is_Float is true and which nsimplify turns into the exact x"""
+def float_num(x) -> T:
+    """Float(x): a number whose is_Float is true and which nsimplify(rational=True) turns into the exact x (an int or a Fraction)"""
     return app("Float", num(x))
 
 
@@ -52,6 +52,18 @@ class QReader(CollectReader):
         name = (dotted(n.func) or "").split(".")[-1]
         if name in ("nsimplify", "Rational", "Integer") and n.args and name not in self.functions:
             v = self.ev(n.args[0], env, fns)
+            kw_ = {k.arg: self.ev(k.value, env, fns) for k in n.keywords if k.arg}
+            tol = kw_.get("tolerance")
+            if name == "nsimplify" and tol is not None:
+                # SymPy: a tolerance < 1 replaces every Float by Rational(x).limit_denominator(ceiling(1/tolerance)) - the nearest small fraction, not the number
+                tv = tol.val if isinstance(tol, T) and tol.op == "num" else (Fraction(tol) if isinstance(tol, int) else None)
+                if tv is None or not (0 < tv < 1) or not (isinstance(v, T) and v.op == "app" and v.val == "Float" and v.args[0].op == "num"):
+                    return app("nsimplify_with_tolerance", v if isinstance(v, T) else num(v))
+                import math
+                return num(Fraction(v.args[0].val).limit_denominator(math.ceil(1 / tv)))
+            if name == "Rational" and len(n.args) == 1 and isinstance(v, T) and v.op == "app" and v.val == "Float" and v.args[0].op == "num":
+                # Rational(Float) is the exact BINARY value of the float (0.1 -> 3602879701896397/36028797018963968), not the decimal it was written as
+                return num(Fraction(float(v.args[0].val)))
             if isinstance(v, T) and v.op == "app" and v.val == "Float":
                 return v.args[0]
             return v
@@ -94,7 +106,8 @@ def tree_family(lv: Leaves, deep: bool = False) -> list:
                                          (leaves[2], leaves[0], leaves[1]), (leaves[0], leaves[1], leaves[2]), (leaves[6], leaves[3], leaves[0]), (leaves[3], leaves[6], leaves[3])]:
         for cls in ("Mul", "Add", "Min", "Max"):
             add(f"{cls}({n1}, {n2}, {n3})", Node(cls, [t1, t2, t3]))
-    exps = [("2", 2), ("-1", -1), ("1/2", half), ("2.0", float_num(2)), ("c", c), ("z", z), ("a/b", ratio), ("0", 0)]
+    # 1.6667: a float that is no small fraction (an adiabatic index written with four decimals): its exact value is 16667/10000, the nearest "nice" fraction 5/3 is another number
+    exps = [("2", 2), ("-1", -1), ("1/2", half), ("2.0", float_num(2)), ("1.6667", float_num(Fraction(16667, 10000))), ("c", c), ("z", z), ("a/b", ratio), ("0", 0)]
     for (nb, tb), (ne, te) in itertools.product([("a", a), ("c", c), ("2", 2), ("z", z), ("a*c", Node("Mul", [a, c])), ("a/b", ratio)], exps):
         add(f"Pow({nb}, {ne})", Node("Pow", [tb, te]))
     for nm, t in leaves + [("a+b", Node("Add", [a, b])), ("a+c", Node("Add", [a, c]))]:
